@@ -877,6 +877,7 @@ class Cx:
         self._seqlen = None
         self._scans = None
         self._escaped = None
+        self._pq_info = None
 
     # -- locals ----------------------------------------------------------------------------------
     def unalias(self, e, use, depth=0):
@@ -1987,6 +1988,8 @@ def check_pq(ck, cx, tag):
     except ir.AnalysisBroken as e:
         (A, B), ab_err = (None, None), e
 
+    uses_of, well_read = {}, []
+
     def one_pq(pq):
         skew_pos = orient[pq["id"]]
         par = fn.parent(pq)
@@ -2031,6 +2034,7 @@ def check_pq(ck, cx, tag):
         if rev != want_rev or src != want_src:
             # positive: the comparator is a concrete type, every pushed element is a recognised border element
             return report(show_src(src))
+        well_read.append(pq)
         return False
 
     def stmt_and_siblings(n):
@@ -2059,6 +2063,7 @@ def check_pq(ck, cx, tag):
 
     def pq_sources(pq, par):
         feeds = []
+        pops, tops = [], []
         is_heap = pq.get("did") in heaps
         for y in ir.walk(par):
             if y["k"] != "DeclRefExpr" or y["ref"]["id"] != pq["did"]:
@@ -2080,6 +2085,7 @@ def check_pq(ck, cx, tag):
                     if not is_stmt_call(st, (nm,), pq["did"], True) or nxt is None or not is_stmt_call(nxt, ("push_heap",), pq["did"], False):
                         what = "%s is not directly followed by std::push_heap over the whole container" % nm
                 elif nm == "pop_back":
+                    pops.append(p)
                     if not is_stmt_call(st, (nm,), pq["did"], True) or prev is None or not is_stmt_call(prev, ("pop_heap",), pq["did"], False):
                         what = "pop_back is not directly preceded by std::pop_heap over the whole container"
                 elif nm in ("begin", "end"):
@@ -2096,17 +2102,25 @@ def check_pq(ck, cx, tag):
                         what = "std::%s is not one of the two steps of a priority queue" % q["callee"]["name"]
                 elif nm not in ("front", "empty", "size", "reserve"):
                     what = "member %s is not one this rule reads" % nm
+                if nm == "front":
+                    tops.append(p)
                 if what:
                     raise dtable.Undecidable("%s: the container %s is kept in heap order by hand, but not in the way of std::priority_queue: %s (line %s)"
                                              % (fn.loc, pq.get("name"), what, p.get("l")))
                 continue
             if nm in ("push", "emplace"):
                 feeds.append(p)
+            elif nm == "pop":
+                pops.append(p)
+            elif nm == "top":
+                tops.append(p)
             elif nm not in ("top", "pop", "empty", "size"):
                 raise dtable.Undecidable("%s: priority_queue::%s (line %s) is not a member this rule reads" % (fn.loc, nm, p.get("l")))
         if not feeds:
             raise dtable.Undecidable("%s: nothing is pushed into the priority queue declared at line %s" % (fn.loc, pq.get("l")))
         src = set()
+        pushed = []
+        uses_of[pq["id"]] = {"push": pushed, "pop": pops, "top": tops}
         for y in feeds:
             els = [cx.is_access(z) for a_ in kids(y)[1:] for z in ir.walk(a_)]
             els = [e_ for e_ in els if e_]
@@ -2123,6 +2137,7 @@ def check_pq(ck, cx, tag):
             if f is None or len(arrs) != 1:
                 raise dtable.Undecidable("%s: index of the element pushed at line %s is not a border +- constant" % (fn.loc, y.get("l")))
             src.add((list(arrs)[0], bool(f[0]) and f[1] < 0))
+            pushed.append((y, els[0][0], els[0][1]))
         return src
     bad = 0
     unread = []
@@ -2131,10 +2146,203 @@ def check_pq(ck, cx, tag):
             bad += 1 if one_pq(pq) else 0
         except ir.AnalysisBroken as e:      # a queue that cannot be read does not hide what the other one shows
             unread.append(e)
+    cx._pq_info = {"borders": (A, B), "queues": [(pq, orient[pq["id"]], uses_of[pq["id"]]) for pq in well_read], "complete": not unread and not bad}
     if unread:
         raise unread[0]
     if not bad:
         ck.ok("PQ-ORIENT", tag, "skew > 0: min-first queue over b[]; skew < 0: max-first queue over a[] - 1")
+
+
+def check_pq_refill(ck, cx, tag):
+    """PQ-REFILL: during a correction round the queue holds one candidate - the element at the border - for every sequence whose
+    border element exists.  A round pops the candidate of one sequence and moves that sequence's border; before the queue is
+    popped again the new border element of that sequence has to be pushed, unless it does not exist.  Decided by a path search
+    over the CFG of the round (from the pop back to the pop, not through the queue's declaration): a cycle that passes neither a
+    push of the border element of the moved sequence nor a branch edge implying that this element does not exist (canonical
+    linear inequality, read after the last write to the border) is a counterexample: that sequence has lost its candidate, so
+    of two consecutive blocks of one sequence only the first can ever be taken in this correction."""
+    fn, g, L = cx.fn, cx.g, cx.L
+    info = cx._pq_info
+    if info is None:
+        raise dtable.Undecidable("%s: the priority queues were not read (see PQ-ORIENT), so their refill cannot be decided" % fn.loc)
+    A, B = info["borders"]
+    zero = {"k": "IntegerLiteral", "id": -23, "val": 0, "ty": "int"}
+
+    def pos(n, what):
+        p_ = g.pos_deep(n)
+        if p_ is None:
+            raise dtable.Undecidable("%s: %s (line %s) has no position in the control-flow graph" % (fn.loc, what, n.get("l")))
+        return p_
+
+    def cond_parts(c):
+        c = strip_casts(c)
+        while c is not None and (c["k"] == "ParenExpr" or (c["k"] == "UnaryOperator" and c.get("op") == "!")):
+            c = strip_casts(kids(c)[0])
+        if c is not None and c["k"] == "BinaryOperator" and c.get("op") in ("&&", "||"):
+            return cond_parts(kids(c)[0]) + cond_parts(kids(c)[1])
+        return [c] if c is not None else []
+
+    def one(pq, skew_pos, uses):
+        Bd = B if skew_pos else A
+        low = not skew_pos
+        side = "left" if low else "right"
+        pD = pos(pq, "the queue's declaration")
+        pops = [(p_, pos(p_, "the pop")) for p_ in uses["pop"]]
+        tops = [pos(t_, "the queue's top") for t_ in uses["top"]]
+        rounds = [(p_, pp) for p_, pp in pops if g.path_between_avoiding(pp, pp, [pD]) is not None]
+        if len(rounds) != 1:
+            raise dtable.Undecidable("%s: the correction loop of the queue declared at line %s (one pop per round) was not recognised (%d pops in a loop)"
+                                     % (fn.loc, pq.get("l"), len(rounds)))
+        P, pP = rounds[0]
+
+        def in_round(p_):
+            return p_ == pP or (g.path_between_avoiding(pP, p_, [pD]) is not None and g.path_between_avoiding(p_, pP, [pD]) is not None)
+        def is_border_elem(e):
+            e = strip_casts(e)
+            while e is not None and (e["k"] == "ParenExpr" or (e["k"] == "UnaryOperator" and e.get("op") == "&")):
+                e = strip_casts(kids(e)[0])
+            ip = match.index_parts(e) if e is not None else None
+            return bool(ip) and ref_of(ip[0]) == Bd
+        # the border array is only touched by subscripts: no reference / pointer to one of its elements is kept
+        for v in L.decls.values():
+            ty = (v.get("ty") or "").rstrip()
+            if (ty.endswith("&") or "*" in ty) and kids(v) and kids(v)[0] is not None and is_border_elem(kids(v)[0]):
+                raise dtable.Undecidable("%s: %s (line %s) refers to an element of the %s border, which may be moved through it" % (fn.loc, v.get("name"), v.get("l"), side))
+        for y in fn.nodes():
+            if y["k"] == "UnaryOperator" and y.get("op") == "&" and is_border_elem(kids(y)[0]):
+                raise dtable.Undecidable("%s: the address of an element of the %s border is taken at line %s" % (fn.loc, side, y.get("l")))
+        # the sequence whose border the round moves
+        moved = {}
+        for w in L.writes.get(Bd, []):
+            pw = pos(w, "a write to the border")
+            if not in_round(pw):
+                continue
+            ip = writes_to(w)[1]
+            fx = L.form(ip[1], w) if ip else None
+            if fx is None:
+                raise dtable.Undecidable("%s: the write to the %s border at line %s is not to one element with a linear index" % (fn.loc, side, w.get("l")))
+            moved.setdefault(linear.show(fx), []).append((w, pw, ip))
+        if len(moved) != 1:
+            raise dtable.Undecidable("%s: a correction round of the queue declared at line %s moves the %s border of %d sequences; one expected"
+                                     % (fn.loc, pq.get("l"), side, len(moved)))
+        (key, ws), = moved.items()
+        w0, _, ip0 = ws[0]
+        elem, X = strip_casts(match.binop(w0, ("=", "+=", "-=", "*=", "/=", "%=", ">>=", "<<="))[1] if not match.unop(w0, ("++", "--")) else match.unop(w0, ("++", "--"))[1]), ip0[1]
+        want_term = "%s[%s]" % (cx.name(Bd), key)
+
+        def own_border_element(y, Xp, Ep):
+            """the pushed element is exactly the border element of its own sequence -> printed sequence index"""
+            f, fx = L.form(Ep, y), L.form(Xp, y)
+            if f is None or fx is None or len(f[0]) != 1 or list(f[0].values()) != [1] or f[1] != (-1 if low else 0) or \
+                    list(f[0])[0] != "%s[%s]" % (cx.name(Bd), linear.show(fx)):
+                raise dtable.Undecidable("%s: the element pushed at line %s is not read as the %s border element of its own sequence (index %s, sequence %s)"
+                                         % (fn.loc, y.get("l"), side, linear.show(f), linear.show(fx)))
+            return linear.show(fx)
+        refills = []
+        for y, Xp, Ep in uses["push"]:
+            k_ = own_border_element(y, Xp, Ep)      # outside the round too: on entry the queue holds one candidate per sequence
+            py = pos(y, "a push")
+            if in_round(py):
+                if k_ != key:
+                    raise dtable.Undecidable("%s: the round moves the border of sequence %s but pushes an element of sequence %s (line %s)" % (fn.loc, key, k_, y.get("l")))
+                refills.append((y, py))
+        # branch edges in the round that imply `the border element of the moved sequence does not exist`
+        gone = L.req(elem, cx.seqlen_at(X), False, use=w0) if not low else L.req(zero, elem, False, use=w0)
+        if gone is None:
+            raise dtable.Undecidable("%s: no linear form for `the %s border element of sequence %s does not exist`" % (fn.loc, side, key))
+        blocked, conds = [], []
+        for bid, blk in g.blocks.items():
+            els = g.elements(bid)
+            raw = blk.get("succ", [])
+            if len(raw) != 2 or not els or not isinstance(els[-1], int) or blk.get("term") is None or raw[0] == raw[1]:
+                continue
+            c = fn.byid(els[-1])
+            if c is None or not in_round((bid, len(els) - 1)):
+                continue
+            conds.append(c)
+            for t, s_ in ((True, raw[0]), (False, raw[1])):
+                if s_ is not None and any(linear.implies(a_, gone) for a_ in L.implied(c, t)):
+                    blocked.append((bid, s_, c))
+        # a push or a test that is followed by another move of the border (before the queue is read again) tells nothing
+        stops = [pD] + [pp for _, pp in pops] + tops
+        w_pos = [pw for _, pw, _ in ws]
+        for what, start, line in [("push", py, y.get("l")) for y, py in refills] + [("test", (s_, -1), c.get("l")) for _, s_, c in blocked]:
+            if any(g.path_between_avoiding(start, pw, stops) is not None for pw in w_pos):
+                raise dtable.Undecidable("%s: the %s at line %s precedes a move of the %s border in the same round: whether the queue is refilled cannot be read"
+                                         % (fn.loc, what, line, side))
+        path = g.path_between_avoiding(pP, pP, [pD] + [py for _, py in refills], blocked_edges=[(b_, s_) for b_, s_, _ in blocked])
+        if path is None:
+            return 0
+        # closed world: every other branch of the round is either an inequality this rule has read and that does not speak of
+        # the moved border, or cannot concern it
+        for c in conds:
+            for c0 in cond_parts(c):
+                read = match.binop(c0, _CMP) and L.atom(c0, True) is not None
+                about = Bd in cx.leaf_refs(c0) or (read and any(t_ == want_term for t_, _ in L.atom(c0, True)[0]))
+                if read and any(c is bc for _, _, bc in blocked):
+                    continue
+                is_flag = c0["k"] == "DeclRefExpr" and (c0.get("ty") or "").replace("const ", "") == "bool"
+                is_helper = "callee" in c0 and fn.tu.by_did.get(c0["callee"].get("did")) is not None
+                if is_flag or is_helper or about:
+                    raise dtable.Undecidable("%s: whether the queue is refilled after the pop at line %s may depend on %s (line %s), which this rule cannot read"
+                                             % (fn.loc, P.get("l"), dtable.describe(c0), c0.get("l")))
+        # the cycle has to be feasible: two of its branches over one variable (`if (skew > 1 && ..) push` under the loop's
+        # `skew != 0`: the skipped push is that of the last round) may exclude each other, which this rule does not evaluate
+        seen_vars = {}
+        params = {p_["did"]: p_ for p_ in fn.params}
+
+        def vars_of(e, depth=0):
+            """variables a condition reads; a never-written scalar local stands for its initialiser as well"""
+            out = set()
+            for y in ir.walk(e):
+                if y["k"] != "DeclRefExpr":
+                    continue
+                d_ = y["ref"]["id"]
+                out.add(d_)
+                v = L.decls.get(d_)
+                words = ((v.get("ty") or "") if v is not None else "").replace("const", " ").replace("&", " ").split()
+                scalar = bool(words) and all(w_ in ("long", "int", "unsigned", "signed", "short", "char", "bool", "size_t", "std::size_t", "ptrdiff_t", "std::ptrdiff_t", "diff_type") for w_ in words)
+                if v is not None and scalar and kids(v) and kids(v)[0] is not None and d_ not in L.writes and depth < 4 and \
+                        not any("callee" in z and not (z["k"] == "CXXOperatorCallExpr" and z.get("op") == "[]") for z in ir.walk(kids(v)[0])):
+                    out |= vars_of(kids(v)[0], depth + 1)
+            return out
+        for b_ in set(path):
+            els_, raw_ = g.elements(b_), g.blocks[b_].get("succ", [])
+            if len(raw_) != 2 or not els_ or not isinstance(els_[-1], int) or g.blocks[b_].get("term") is None or raw_[0] == raw_[1]:
+                continue
+            c_ = fn.byid(els_[-1])
+            for d_ in (vars_of(c_) if c_ is not None else set()):
+                if d_ not in L.decls and d_ not in params:
+                    continue            # a function (operator[], a member): not a variable
+                if d_ in seen_vars and seen_vars[d_] is not c_:
+                    raise dtable.Undecidable("%s: the round that does not refill the queue (pop at line %s) passes two branches over %s (lines %s and %s); "
+                                             "whether they can be taken together is not evaluated" % (fn.loc, P.get("l"), cx.name(d_) if d_ in L.decls else params[d_].get("name"), seen_vars[d_].get("l"), c_.get("l")))
+                seen_vars[d_] = c_
+        lines = []
+        for b_ in path:
+            for el in g.elements(b_):
+                n_ = fn.byid(el) if isinstance(el, int) else None
+                if n_ is not None and n_.get("l") is not None and n_["l"] not in lines:
+                    lines.append(n_["l"])
+        ck.violation("PQ-REFILL", fn.qname, "%s:skew%s" % (tag, ">0" if skew_pos else "<0"),
+                     "a correction round pops the candidate of a sequence (line %s) and moves its %s border (%s, line %s), and can reach the next pop "
+                     "(through lines %s) without pushing the new border element begin_seqs[%s].first[%s] and without a test that it does not exist "
+                     "(%s >= 0): sequence %s has no candidate left in the queue although its next block may exist, so when the first and the second of the %s blocks "
+                     "both belong to one sequence (skew >= 2, e.g. sequences of lengths 1, 2, 3) the second is taken from another sequence or not at all "
+                     "and the split is not at the requested rank"
+                     % (P.get("l"), side, dtable.describe(w0)[:40], w0.get("l"), ",".join(str(x) for x in sorted(lines)), key,
+                        want_term + ("-1" if low else ""), linear.show(gone), key, "largest left" if low else "smallest right"), fn.nloc(P))
+        return 1
+    bad, unread = 0, []
+    for pq, skew_pos, uses in info["queues"]:
+        try:
+            bad += one(pq, skew_pos, uses)
+        except ir.AnalysisBroken as e:       # a queue that cannot be read does not hide what the other one shows
+            unread.append(e)
+    if unread:
+        raise unread[0]
+    if not bad and info["complete"]:
+        ck.ok("PQ-REFILL", tag, "every correction round pushes the new border element of the sequence it moved, or passes a test that it does not exist, before the next pop")
 
 
 # ------------------------------------------------------------------------------------------------ middle decision
@@ -2596,6 +2804,7 @@ def check_function(ck, fn, tag, is_partition, comp_threaded=False):
     cx = Cx(fn)
     ck.guarded(lambda: check_index_guards(ck, cx, tag))
     ck.guarded(lambda: check_pq(ck, cx, tag))
+    ck.guarded(lambda: check_pq_refill(ck, cx, tag))
     ck.guarded(lambda: check_edge_scans(ck, cx, tag))
     if is_partition:
         ck.guarded(lambda: check_middle(ck, cx, tag))
@@ -2648,6 +2857,7 @@ def run(ck):
     ck.floor("LEXI-TABLE", 4 * m)
     ck.floor("INDEX-GUARD", 4 * m)
     ck.floor("PQ-ORIENT", 4 * m)
+    ck.floor("PQ-REFILL", 4 * m)
     ck.floor("EDGE-TIEBREAK", 4 * m)
     ck.floor("MIDDLE-LEXI", 2 * m)
     ck.floor("GUARD-EXACT", 4 * m)
